@@ -67,6 +67,7 @@ def tasks(tier):
             ts.append({'mode': 'lm', 'T': 2, 'C': 4, 'k': k, 'eos': True, 'init': False})
     for T, k in [(1, 2), (2, 2)] + ([(3, 2)] if tier != 'quick' else []):
         ts.append({'mode': 'scale0', 'T': T, 'C': 3, 'k': k})
+    ts.append({'mode': 'scale0', 'T': 2, 'C': 3, 'k': 2, 'eos': True, 'init': True})
     for n in (2, 3) + ((4,) if tier != 'quick' else ()):
         for lm in ('all', 'none', 'mixed'):
             ts.append({'mode': 'bag', 'n': n, 'lm': lm})
@@ -175,6 +176,7 @@ def run_task(task, patches=None):
     bonus = S(z3.Real('insertion_bonus'))
     rec = {'selections': [], 'totals': []}
     symnp.argpartition = c02._argpartition_stub(rec)
+    symnp.partition = c02._partition_stub(rec)
     K = 'C03:%s:' % task['mode']
     lm = StubLM(C - 1, 'given' if init else 'initial')
     real_topk = dec.top_k
@@ -199,14 +201,15 @@ def run_task(task, patches=None):
                 core.assume(x > 0)
                 logp.declare_pos(x)
             core.assume(sum(row) == 1)
-        core.assume(z3.And(scale.e >= 0, scale.e <= 3))
+        # scale 0 is the scale0 tasks (a concrete 0, as a configuration file gives it); here 0 < scale <= 3
+        core.assume(z3.And(scale.e > 0, scale.e <= 3))
         core.assume(bonus.e >= 0)
         M = symnp.A([LP(pv[t][c]) for t in range(T) for c in range(C)], (T, C))
         d = dec.CTCPrefixLogRawNumpyDecoder(letters, k, lm=lm, lm_scale=(0 if scale0 else scale), insertion_bonus=bonus,
                                             relevant_logits_selector=lambda l: (symnp.arange(len(l)),))
         kw = {}
         if init:
-            kw['init_h'] = HS([()])
+            kw['init_h'] = rec['init_h'] = HS([()])
         boh, h = d(M, model_eos=eos, return_h=True, **kw)
         return boh, h
 
@@ -218,6 +221,11 @@ def run_task(task, patches=None):
             continue
         boh, h = res
         hyps = list(boh)
+        if init and rec['init_h'].states != [()]:
+            # the caller keeps the start state for the next decoding / for rescoring: "from the given start state" must stay true of it
+            H.fail(K + 'start-state-modified', 'the supplied start state was overwritten in place (now the state of prefix %r)' % (rec['init_h'].states,),
+                   lambda m_: case(m_))
+            continue
         got = lambda m_: [[hy.transcript, mv(m_, hy.lm_sc) if isinstance(hy.lm_sc, S) else hy.lm_sc] for hy in hyps]
         # (a) the LM score of every hypothesis is the LM's own score along the transcript
         for hy in hyps:
@@ -229,8 +237,13 @@ def run_task(task, patches=None):
                 exp = exp + lm.eos(pre).e
             H.claim(core.lift(hy.lm_sc) == exp, K + 'lm-score', "the LM score reported for %r is not the model's own score along that transcript" % hy.transcript,
                     lambda m_: case(m_, got=got(m_), transcript=hy.transcript))
-        if getattr(boh, 'lm_weight', None) is not (0 if scale0 else scale) and not scale0:
-            H.fail(K + 'lm-weight-not-archived', 'the bag does not archive the LM scale', lambda m_: case(m_))
+        lw = getattr(boh, 'lm_weight', None)
+        if scale0 or not isinstance(lw, S):
+            if isinstance(lw, S) or lw != (0 if scale0 else None):
+                H.fail(K + 'lm-weight-not-archived', 'the bag archives %r as LM scale instead of the decoder\'s scale' % (lw,), lambda m_: case(m_))
+                continue
+        else:
+            H.claim(core.lift(lw) == scale.e, K + 'lm-weight-not-archived', 'the bag does not archive the LM scale of the decoder', lambda m_: case(m_))
         # (b) the returned state is the state of the hypothesis maximising vis + scale * lm
         if len(h.states) != 1:
             H.fail(K + 'state-shape', 'returned LM state is not a single state', lambda m_: case(m_))
@@ -271,7 +284,7 @@ def run_task(task, patches=None):
             ws = [(pv[t][c], fractions.Fraction(rnd.randint(1, 997), 1000)) for c in range(C)]
             tot = sum(w for _, w in ws)
             vals.extend([(v, w / tot) for v, w in ws])
-        sc_v = fractions.Fraction(rnd.randint(0, 30), 10)
+        sc_v = fractions.Fraction(rnd.randint(1, 30), 10)
         bo_v = fractions.Fraction(rnd.randint(0, 20), 10)
         vals += [(scale.e, sc_v), (bonus.e, bo_v)]
         g = _LMGuide(vals, rnd)
